@@ -78,6 +78,15 @@ func profileFor(check, tier, variant string) *CheckDef {
 		d.MinOps, d.MaxOps = 420, 470
 		d.FSOnly, d.Images, d.NoMerge = true, true, true
 		d.PostRun = snapPostRun
+	case "C14":
+		d.MinClients, d.MaxClients = 1, 2
+		d.MinOps, d.MaxOps = 3, 9
+		d.FSOnly, d.Images, d.AckedOnly = true, true, true
+		d.Readers = true
+		d.PostRun = faultPostRun
+		if thorough {
+			d.MaxOps = 14
+		}
 	case "C13":
 		d.Special = c13Special
 	case "selftest":
